@@ -226,6 +226,7 @@ NAME_PAIRS = [
     ("A.1.0.dsdl", "A.1.00.dsdl"), ("A.1.0.dsdl", "sub/A.1.0.dsdl"), ("sub/A.1.0.dsdl", "SUB/A.1.0.dsdl"), ("A.1.0.dsdl", "A.1.1.dsdl"), ("7000.A.1.0.dsdl", "7000.B.1.0.dsdl"),
     ("A.1.0.uavcan", "7000.A.1.0.uavcan"), ("sub/A.1.0.dsdl", "sub.A.1.0.dsdl"),
 ]
+DIR_LIKE = [["A.1.0.dsdl/keep.txt"], ["A.1.0.uavcan/keep.txt"], ["sub/7000.A.1.0.dsdl/keep.txt"], ["A.1.0.dsdl/Inner.1.0.dsdl"], ["x.dsdl/keep.txt"], ["A.1.0.dsdl/keep.txt", "A.1.0.uavcan/keep.txt"]]
 DIRNAMES = ["sub", "uint8", "a-b", "9x", "K", "é", "sub.x", " ", "_x_", "con", "A" * 200]
 
 
@@ -339,6 +340,12 @@ def cases(shard, tier):
             if i % shard["parts"] == shard["part"]:
                 yield {"kind": "names", "files": [d + "/A.1.0.dsdl"]}
             i += 1
+        # DIRECTORIES whose names have the shape of a definition file name (empty but for a stray file / holding a definition), next
+        # to a proper definition; also designated as a read_files target
+        for dl in DIR_LIKE:
+            if i % shard["parts"] == shard["part"]:
+                yield {"kind": "names", "files": dl + ["Good.1.0.dsdl"], "target": "rns/" + dl[0].split("/keep.txt")[0].rsplit("/Inner.1.0.dsdl", 1)[0]}
+            i += 1
 
 
 def verdict(o: api.Obs, R, case, offending: str | None):
@@ -411,7 +418,7 @@ def check_case(case, R: engine.Acc):
             return
         R.case(case["files"] + [case.get("body", "message")], nontrivial=True, sample=len(case["files"]) == 2 and "body" not in case)
         verdict(o, R, case, None)
-        o2 = api.read_files_tree(files, ["rns/" + f for f in case["files"]][:1], ["rns"], timeout=30, allow_unregulated_fixed_port_id=True)
+        o2 = api.read_files_tree(files, [case["target"]] if "target" in case else ["rns/" + f for f in case["files"]][:1], ["rns"], timeout=30, allow_unregulated_fixed_port_id=True)
         R.case(["read_files"] + case["files"] + [case.get("body", "message")], nontrivial=True, sample=False)
         verdict(o2, R, {**case, "api": "read_files"}, None)
 
